@@ -4,7 +4,9 @@ import os
 import random
 import sys
 sys.path.insert(0, os.path.join(os.path.dirname(os.path.abspath(__file__)), "..", "bind", "py"))
+import common
 import machine
+import wasm_encode
 import wasmgen
 from common import SEED, Verdict, main_wrap, tlc, tlc_ok
 from wasm_encode import OPS, natural_align
@@ -144,6 +146,40 @@ def history(rng, maxpages, length):
     return ops
 
 
+def alloc_failure(v, wd):
+    """memory.grow may also fail because the host has no memory (the specification allows failure at any time): then, too, it
+    returns -1 and changes nothing.  The model's grow is deterministic, so this corner is driven directly: the process limits
+    its address space, asks for a gigabyte, and whatever the answer, size and later grows must be consistent with it."""
+    m = build_module(None)
+    d = os.path.join(wd, "allocfail")
+    os.makedirs(d)
+    open(os.path.join(d, "af.wasm"), "wb").write(wasm_encode.encode(machine.enc_module(machine.norm_module(m))))
+    w2c2 = common.build_w2c2(os.path.join(wd, "w2c2bin"))
+    rc, so, se = common.run([w2c2, "-t", "1", "af.wasm", "af.c"], cwd=d, timeout=120)
+    if rc != 0:
+        raise common.MachineryError("cannot translate the allocation-failure module: " + se[-300:])
+    open(os.path.join(d, "main.c"), "w").write(
+        '#include <stdio.h>\n#include <sys/resource.h>\n#include "af.h"\nvoid trap(Trap t) { printf("trap %d\\n", (int)t); }\n'
+        'int main(void) { static afInstance i; struct rlimit rl; U32 r1, s1, r2, s2; afInstantiate(&i, NULL);\n'
+        '  rl.rlim_cur = rl.rlim_max = 512UL << 20; setrlimit(RLIMIT_AS, &rl);\n'
+        '  r1 = af_grow(&i, 16384); s1 = af_size(&i); r2 = af_grow(&i, 1); s2 = af_size(&i);\n'
+        '  printf("%u %u %u %u\\n", r1, s1, r2, s2); return 0; }\n')
+    rc, so, se = common.run(["gcc", "-O1", "-w", "-I", os.path.join(common.REPO, "w2c2"), "-DWASM_THREADS_PTHREADS", "main.c", "af.c", "-o", "af", "-lm", "-lpthread"], cwd=d, timeout=300)
+    if rc != 0:
+        raise common.MachineryError("cannot build the allocation-failure test: " + se[-400:])
+    rc, so, se = common.run([os.path.join(d, "af")], cwd=d, timeout=60)
+    try:
+        r1, s1, r2, s2 = [int(x) for x in so.split()]
+    except ValueError:
+        v.deviation("grow:allocation-failure:crash", {"rc": rc, "stdout": so[-200:], "stderr": se[-300:]})
+        return 0
+    ok = (r1 == 0xFFFFFFFF and s1 == 1 and ((r2 == 1 and s2 == 2) or (r2 == 0xFFFFFFFF and s2 == 1))) or \
+         (r1 == 1 and s1 == 16385 and ((r2 == 16385 and s2 == 16386) or (r2 == 0xFFFFFFFF and s2 == 16385)))
+    if not ok:
+        v.deviation("grow:allocation-failure", {"grow_1GiB": r1, "size_after": s1, "grow_1_page": r2, "size_after_that": s2})
+    return 1
+
+
 def sig(it, k, why, build, e, a):
     op = it["script"][k - 1]
     if it["id"] == "max0":
@@ -187,6 +223,12 @@ def main():
     if tier != "quick":
         builds.append({"name": "clang-O2", "cc": "clang", "cflags": ("-O2",)})
     st, exp = machine.replay(v, items, builds, sigfn=sig)
+    wd2 = common.scratch("c05af-")
+    try:
+        alloc_failure(v, wd2)
+    finally:
+        import shutil
+        shutil.rmtree(wd2, ignore_errors=True)
     samples = []
     for it in items[:2]:
         samples.append({"item": it["id"], "history": [(o.get("export"), [int.from_bytes(bytes(a["b"]), "little") for a in o.get("args", [])])
